@@ -149,6 +149,10 @@ func (p *Subscribe) UnmarshalBinary(data []byte) error {
 		var f TopicFilter
 		b.get(&f.filter)
 		b.get(&f.options)
+		if b.err != nil {
+			// b.i no longer advances, the loop would never end
+			return b.err
+		}
 		p.filters = append(p.filters, f)
 		if b.i == len(data) {
 			break
